@@ -443,6 +443,7 @@ func v02RunOnce(c *v02Case, cnt *v02Counters) (violation, inconclusive string) {
 	if c.WithB {
 		if b, err = v01Dial(env, 1); err != nil {
 			a.Close()
+			a.release()
 			env.Close()
 			return "", err.Error()
 		}
@@ -524,8 +525,10 @@ func v02RunOnce(c *v02Case, cnt *v02Counters) (violation, inconclusive string) {
 		s.abandon()
 	}
 	a.Close()
+	a.release()
 	if b != nil {
 		b.Close()
+		b.release()
 	}
 	env.Close()
 	evs := env.log.snapshot()
